@@ -21,6 +21,7 @@ import (
 )
 
 // ListenTCP is net.ListenTCP.
+//go:norace
 func ListenTCP(network string, laddr *net.TCPAddr) (net.Listener, error) {
 	t := simrt.Current()
 	if t == nil {
@@ -34,6 +35,7 @@ func ListenTCP(network string, laddr *net.TCPAddr) (net.Listener, error) {
 }
 
 // Listen is net.Listen.
+//go:norace
 func Listen(network, address string) (net.Listener, error) {
 	t := simrt.Current()
 	if t == nil {
@@ -43,6 +45,7 @@ func Listen(network, address string) (net.Listener, error) {
 }
 
 // ListenTLS is tls.Listen; TLS is never simulated.
+//go:norace
 func ListenTLS(network, laddr string, config *tls.Config) (net.Listener, error) {
 	t := simrt.Current()
 	if t == nil {
@@ -76,15 +79,17 @@ type Profile struct {
 const valKey = "simnet"
 
 // Of returns the network of sim, creating it on first use.
+//go:norace
 func Of(s *simrt.Sim) *Net {
-	if n, ok := s.Vals[valKey].(*Net); ok {
+	if n, ok := s.Val(valKey).(*Net); ok {
 		return n
 	}
 	n := &Net{sim: s, listeners: map[string]*Listener{}, nextPort: 40000}
-	s.Vals[valKey] = n
+	s.SetVal(valKey, n)
 	return n
 }
 
+//go:norace
 func listen(t *simrt.Task, addr string) (net.Listener, error) {
 	n := Of(t.Sim())
 	if l := n.listeners[addr]; l != nil && !l.closed {
@@ -107,10 +112,13 @@ type Listener struct {
 
 type addr string
 
+//go:norace
 func (a addr) Network() string { return "tcp" }
+//go:norace
 func (a addr) String() string  { return string(a) }
 
 // Accept waits for the next connection.
+//go:norace
 func (l *Listener) Accept() (net.Conn, error) {
 	t := simrt.Current()
 	if t == nil {
@@ -134,6 +142,7 @@ func (l *Listener) Accept() (net.Conn, error) {
 
 // Close stops the listener; blocked Accept calls fail with net.ErrClosed.
 // Connections queued but not yet accepted are reset.
+//go:norace
 func (l *Listener) Close() error {
 	if l.closed {
 		return &net.OpError{Op: "close", Net: "tcp", Addr: addr(l.addr), Err: net.ErrClosed}
@@ -154,8 +163,10 @@ func (l *Listener) Close() error {
 }
 
 // Addr returns the listen address.
+//go:norace
 func (l *Listener) Addr() net.Addr { return tcpAddr(l.addr) }
 
+//go:norace
 func tcpAddr(s string) net.Addr {
 	a, err := net.ResolveTCPAddr("tcp", s)
 	if err != nil {
@@ -169,6 +180,7 @@ var ErrRefused = &net.OpError{Op: "dial", Net: "tcp", Err: syscall.ECONNREFUSED}
 
 // Dial connects a harness client to the listener at address and returns the
 // client end.
+//go:norace
 func Dial(address string) (*Conn, error) {
 	t := simrt.Current()
 	if t == nil {
@@ -191,6 +203,7 @@ func Dial(address string) (*Conn, error) {
 }
 
 // Pipe returns two connected ends (a dials b).
+//go:norace
 func (n *Net) Pipe(aAddr, bAddr string) (*Conn, *Conn) {
 	ab := &stream{net: n, cap: n.Profile.BufCap}
 	ba := &stream{net: n, cap: n.Profile.BufCap}
@@ -220,6 +233,7 @@ type stream struct {
 	total    int64
 }
 
+//go:norace
 func (s *stream) wakeReader() {
 	if s.rwait != nil {
 		s.net.sim.MakeReady(s.rwait)
@@ -227,6 +241,7 @@ func (s *stream) wakeReader() {
 	}
 }
 
+//go:norace
 func (s *stream) wakeWriter() {
 	if s.wwait != nil {
 		s.net.sim.MakeReady(s.wwait)
@@ -254,18 +269,24 @@ type Conn struct {
 
 type timeoutError struct{}
 
+//go:norace
 func (timeoutError) Error() string   { return "i/o timeout" }
+//go:norace
 func (timeoutError) Timeout() bool   { return true }
+//go:norace
 func (timeoutError) Temporary() bool { return true }
+//go:norace
 func (timeoutError) Is(err error) bool {
 	return err == os.ErrDeadlineExceeded
 }
 
+//go:norace
 func (c *Conn) opErr(op string, err error) error {
 	return &net.OpError{Op: op, Net: "tcp", Source: tcpAddr(c.local), Addr: tcpAddr(c.remote), Err: err}
 }
 
 // Read implements net.Conn.
+//go:norace
 func (c *Conn) Read(p []byte) (int, error) {
 	t := simrt.Current()
 	if t == nil {
@@ -319,6 +340,7 @@ func (c *Conn) Read(p []byte) (int, error) {
 }
 
 // Write implements net.Conn.
+//go:norace
 func (c *Conn) Write(p []byte) (int, error) {
 	t := simrt.Current()
 	if t == nil {
@@ -402,6 +424,7 @@ func (c *Conn) Write(p []byte) (int, error) {
 }
 
 // chunk returns how many of n bytes go into the next segment.
+//go:norace
 func (nt *Net) chunk(n int) int {
 	if n <= 1 {
 		return n
@@ -419,6 +442,7 @@ func (nt *Net) chunk(n int) int {
 	return n
 }
 
+//go:norace
 func pickChunk(S *simrt.Choices, n int) int {
 	sizes := []int{n, 1, 2, 3, 7, 64, 512, 1460, 4096, n / 2, n - 1}
 	k := sizes[S.Choose(len(sizes))]
@@ -433,6 +457,7 @@ func pickChunk(S *simrt.Choices, n int) int {
 
 // Close closes this end: the peer reads EOF after draining, the peer's later
 // writes fail.
+//go:norace
 func (c *Conn) Close() error {
 	if c.closed {
 		return c.opErr("close", net.ErrClosed)
@@ -450,6 +475,7 @@ func (c *Conn) Close() error {
 }
 
 // CloseWrite half-closes: the peer reads EOF, this end can still read.
+//go:norace
 func (c *Conn) CloseWrite() error {
 	c.out.finished = true
 	c.out.wakeReader()
@@ -457,6 +483,7 @@ func (c *Conn) CloseWrite() error {
 }
 
 // Abort resets the connection: both directions fail with ECONNRESET.
+//go:norace
 func (c *Conn) Abort() {
 	c.closed = true
 	for _, s := range []*stream{c.in, c.out} {
@@ -474,18 +501,23 @@ func (c *Conn) Abort() {
 
 // PeerAccepted reports whether the listener's Accept has returned the other
 // end of this connection.
+//go:norace
 func (c *Conn) PeerAccepted() bool { return c.peer.accepted }
 
 // PeerClosed reports whether the other end has closed (or reset) the connection.
+//go:norace
 func (c *Conn) PeerClosed() bool { return c.peer.closed || c.in.reset }
 
 // LocalAddr implements net.Conn.
+//go:norace
 func (c *Conn) LocalAddr() net.Addr { return tcpAddr(c.local) }
 
 // RemoteAddr implements net.Conn.
+//go:norace
 func (c *Conn) RemoteAddr() net.Addr { return tcpAddr(c.remote) }
 
 // SetDeadline implements net.Conn.
+//go:norace
 func (c *Conn) SetDeadline(t time.Time) error {
 	c.rdl, c.wdl = t, t
 	c.in.wakeReader()
@@ -494,6 +526,7 @@ func (c *Conn) SetDeadline(t time.Time) error {
 }
 
 // SetReadDeadline implements net.Conn.
+//go:norace
 func (c *Conn) SetReadDeadline(t time.Time) error {
 	if c.closed {
 		return c.opErr("set", net.ErrClosed)
@@ -504,6 +537,7 @@ func (c *Conn) SetReadDeadline(t time.Time) error {
 }
 
 // SetWriteDeadline implements net.Conn.
+//go:norace
 func (c *Conn) SetWriteDeadline(t time.Time) error {
 	if c.closed {
 		return c.opErr("set", net.ErrClosed)
@@ -514,8 +548,10 @@ func (c *Conn) SetWriteDeadline(t time.Time) error {
 }
 
 // Buffered returns the bytes written by the peer and not yet read here.
+//go:norace
 func (c *Conn) Buffered() int { return c.in.size }
 
+//go:norace
 func clipb(b []byte) string {
 	if len(b) > 24 {
 		return string(b[:12]) + "..." + string(b[len(b)-12:])
